@@ -664,6 +664,290 @@ Definition ex_check : bool :=
   | None => false
   end.
 
-(* REST *)
+(* ---------- the live invariant and the events of Journal ------------------------------------ *)
+
+(* what holds of a live database between operations: the disk layer represents the
+   chain l, the freezer head is its id, the persistent part satisfies PInv, the diff
+   layers are well-formed, and no acceptable stored journal is ahead of the disk layer *)
+Record LInv (w : world) (l lp : list transition) : Prop := {
+  li_d : DInv 0 l (w_dk w);
+  li_wf : wf_chain l;
+  li_head : fr_head (w_fr w) = len l;
+  li_fr : fok (w_stail w) (fr_data (w_fr w)) l;
+  li_diffs : diffs_ok (sem_rev l) (len l) (w_diffs w);
+  li_p : PInv w lp;
+  li_jid : forall j, In (Some j) (slots w) -> j_proot j = w_proot w ->
+           pid (w_dk w) <= j_id j -> j_id j <= disk_id (w_dk w) }.
+
+(* every database that New has produced from a persistent state with PInv satisfies it *)
+Lemma open_linv w lp evs w' l :
+  PInv w lp -> settled w -> open w = (evs, Done w') -> Consistent w' l lp -> LInv w' l lp.
+Proof.
+  intros P S H C. destruct C as [C1 C2 C3 C4 C5 C6 C7 C8].
+  assert (TH : fr_tail (w_fr w) <= fr_head (w_fr w)).
+  { destruct P as [_ _ _ _ _ P6 P7 P8 P9 _ _]. destruct S as [S1 [S2 _]]. lia. }
+  destruct (open_aligned _ _ _ TH H) as [A1 [A2 [A3 [A4 A5]]]].
+  unfold kv_part in A3. injection A3 as K1 K2 K3 K4 K5 K6 K7 K8 K9.
+  constructor; auto.
+  - destruct C8 as [_ [S2 _]]. rewrite S2.
+    apply (frz_ok_window 0 (w_fr w') l (fr_tail (w_fr w')) 0); [lia|exact C5].
+  - intros j Hj E1 E2.
+    assert (Hj' : In (Some j) (slots w)) by (unfold slots in *; rewrite K5, K6, K7 in Hj; exact Hj).
+    assert (LJ := slot_loaded w j (p_ex _ _ P) S Hj').
+    rewrite K1 in E1. rewrite K3 in E2.
+    assert (EJ : journal_used w = Some j).
+    { unfold journal_used. rewrite LJ.
+      replace (j_proot j =? w_proot w) with true by (symmetry; apply N.eqb_eq; exact E1).
+      replace (j_id j <? pid (w_dk w)) with false by (symmetry; apply N.ltb_ge; exact E2).
+      reflexivity. }
+    assert (L := load_layers_spec w). rewrite EJ in L.
+    assert (Hdk : w_dk w' = fst (load_layers w)).
+    { destruct (opened_fields w) as [B1 _].
+      destruct (open_done _ _ _ H) as [[-> _]|[[-> _]|[-> _]]].
+      - exact B1.
+      - unfold fr_reset. destruct (set_frz_other (opened w) (mkFrz 0 0 (fun _ => None)) 0 0) as [X1 _].
+        rewrite X1. exact B1.
+      - destruct (trunc_head_cases (opened w) (disk_id (fst (load_layers w)))) as [a [b [-> _]]].
+        match goal with |- context [set_frz ?w0 ?f ?a ?b] =>
+          destruct (set_frz_other w0 f a b) as [X1 _] end.
+        rewrite X1. exact B1. }
+    rewrite Hdk, L. simpl. lia.
+Qed.
+
+Lemma disk_eta_pid o :
+  pid o + buf_layers o = disk_id o ->
+  mkDisk (disk_root o) (disk_id o) (disk_id o - pid o) (buf o) (pflat o) (pid o) = o.
+Proof. intro H. destruct o. simpl in *. f_equal. lia. Qed.
+
+Lemma renumber_id ds : forall m id, diffs_ok m id ds -> renumber id ds = ds.
+Proof.
+  induction ds as [|d r IH]; intros m id H; simpl; auto.
+  simpl in H. destruct H as [H1 [H2 [H3 H4]]].
+  rewrite (IH _ _ H4). destruct d. simpl in *. subst. reflexivity.
+Qed.
+
+(* the persistent core that PInv reads (the root -> id table is not part of it) *)
+Definition kv_core (w : world) :=
+  (w_proot w, pflat (w_dk w), pid (w_dk w), w_kvj w, w_jlive w, w_jdur w, w_jfile w).
+
+Lemma pinv_transfer_core w w' lp :
+  PInv w lp -> kv_core w' = kv_core w ->
+  fok (w_stail w') (fr_data (w_fr w')) lp ->
+  pid (w_dk w) <= w_shead w' -> w_shead w' <= fr_head (w_fr w') ->
+  w_stail w' <= fr_tail (w_fr w') -> fr_tail (w_fr w') <= pid (w_dk w) ->
+  (forall j, In (Some j) (slots w') -> JOk w' j) ->
+  PInv w' lp.
+Proof.
+  intros [P1 P2 P3 P4 P5 P6 P7 P8 P9 P10 P11] KV F A B C D J.
+  unfold kv_core in KV. injection KV as K1 K2 K3 K5 K6 K7 K9.
+  constructor.
+  - exact P1.
+  - rewrite K1. exact P2.
+  - intro k. rewrite K2. apply P3.
+  - rewrite K3. exact P4.
+  - exact F.
+  - rewrite K3. exact A.
+  - exact B.
+  - exact C.
+  - rewrite K3. exact D.
+  - unfold slot_excl. rewrite K9, K5, K6, K7. exact P10.
+  - exact J.
+Qed.
+
+(* stored journals stay valid when only the freezer durability marks move up and the
+   data is kept *)
+Lemma jok_transfer w w' j :
+  JOk w j -> w_proot w' = w_proot w -> pflat (w_dk w') = pflat (w_dk w) -> pid (w_dk w') = pid (w_dk w) ->
+  fr_data (w_fr w') = fr_data (w_fr w) -> w_stail w <= w_stail w' -> w_shead w <= w_shead w' ->
+  JOk w' j.
+Proof.
+  intros J K1 K2 K3 DA ST SH E1 E2. rewrite K1 in E1. rewrite K3 in E2.
+  destruct (J E1 E2) as [lj [J1 J2 J3 J4 J5]]. exists lj. constructor.
+  - rewrite K2, K3. exact J1.
+  - exact J2.
+  - rewrite DA. eapply fok_mono; eauto.
+  - lia.
+  - exact J5.
+Qed.
+
+(* only the journal slots change *)
+Lemma pinv_slots w w' lp :
+  PInv w lp -> w_proot w' = w_proot w -> w_dk w' = w_dk w -> w_fr w' = w_fr w ->
+  w_shead w' = w_shead w -> w_stail w' = w_stail w ->
+  slot_excl w' -> (forall j, In (Some j) (slots w') -> JOk w' j) -> PInv w' lp.
+Proof.
+  intros [P1 P2 P3 P4 P5 P6 P7 P8 P9 P10 P11] E1 E2 E3 E4 E5 X J.
+  constructor.
+  - exact P1.
+  - rewrite E1. exact P2.
+  - rewrite E2. exact P3.
+  - rewrite E2. exact P4.
+  - rewrite E5, E3. exact P5.
+  - rewrite E2, E4. exact P6.
+  - rewrite E4, E3. exact P7.
+  - rewrite E5, E3. exact P8.
+  - rewrite E3, E2. exact P9.
+  - exact X.
+  - exact J.
+Qed.
+
+Lemma sync_pinv w lp : PInv w lp -> PInv (fr_sync w) lp.
+Proof.
+  intro P. assert (P' := P). destruct P' as [P1 P2 P3 P4 P5 P6 P7 P8 P9 P10 P11].
+  apply (pinv_transfer_core w _ lp P).
+  - reflexivity.
+  - unfold fr_sync. simpl. eapply fok_mono; eauto.
+  - unfold fr_sync. simpl. lia.
+  - unfold fr_sync. simpl. lia.
+  - unfold fr_sync. simpl. lia.
+  - unfold fr_sync. simpl. exact P9.
+  - intros j Hj. apply (jok_transfer w).
+    + apply P11. exact Hj.
+    + reflexivity.
+    + reflexivity.
+    + reflexivity.
+    + reflexivity.
+    + unfold fr_sync. simpl. exact P8.
+    + unfold fr_sync. simpl. exact P7.
+Qed.
+
+(* Journal: the histories are synced BEFORE the journal is stored, so at every crash
+   point of Journal (sync; blob Put | temp file, fsync, rename, directory fsync) the
+   persistent part satisfies PInv -- the new journal is valid as soon as it is visible *)
+Theorem journal_events_pinv w l lp :
+  LInv w l lp -> w_ro w = false ->
+  forall e, In e (fst (journal_op w)) -> PInv (snd e) lp.
+Proof.
+  intros LI RO e He. destruct LI as [L1 L2 L3 L4 L5 L6 L7].
+  assert (PS := sync_pinv w lp L6).
+  assert (PS' := PS). destruct PS' as [P1 P2 P3 P4 P5 P6 P7 P8 P9 P10 P11].
+  set (j := mkJ (w_proot w) (disk_root (w_dk w)) (disk_id (w_dk w)) (buf (w_dk w)) (w_diffs w)).
+  (* the new journal is valid in every world that has the synced freezer and the same state *)
+  assert (JV : forall w', w_proot w' = w_proot w -> pflat (w_dk w') = pflat (w_dk w) ->
+                 pid (w_dk w') = pid (w_dk w) -> fr_data (w_fr w') = fr_data (w_fr w) ->
+                 w_stail w' = fr_tail (w_fr w) -> w_shead w' = fr_head (w_fr w) -> JOk w' j).
+  { intros w' K1 K2 K3 DA ST SH _ _. exists l. constructor; simpl.
+    - rewrite K2, K3. rewrite disk_eta_pid; [exact L1|apply (i_pid _ _ _ L1)].
+    - exact L2.
+    - rewrite DA, ST. eapply fok_mono; [|exact L4]. apply (p_st _ _ L6).
+    - rewrite SH, L3. rewrite (i_id _ _ _ L1). lia.
+    - rewrite (i_id _ _ _ L1). rewrite (renumber_id _ _ _ L5). exact L5. }
+  (* old journals stay valid *)
+  assert (JO : forall w' j', In (Some j') (slots (fr_sync w)) ->
+                 w_proot w' = w_proot w -> pflat (w_dk w') = pflat (w_dk w) ->
+                 pid (w_dk w') = pid (w_dk w) -> fr_data (w_fr w') = fr_data (w_fr w) ->
+                 w_stail w' = fr_tail (w_fr w) -> w_shead w' = fr_head (w_fr w) -> JOk w' j').
+  { intros w' j' Hj K1 K2 K3 DA ST SH. apply (jok_transfer (fr_sync w)); auto.
+    - rewrite ST. unfold fr_sync. simpl. lia.
+    - rewrite SH. unfold fr_sync. simpl. lia. }
+  unfold journal_op in He. rewrite RO in He. fold j in He.
+  assert (EX : slot_excl (fr_sync w)) by exact P10.
+  unfold slot_excl in EX. cbn [w_jfile w_kvj w_jlive w_jdur fr_sync set_frz] in EX.
+  destruct (w_jfile w) eqn:JF; cbn [fst] in He.
+  - destruct He as [<-|[<-|[<-|[<-|[<-|[]]]]]]; cbn [snd]; try exact PS.
+    + apply (pinv_slots (fr_sync w) _ lp PS); try reflexivity.
+      * unfold slot_excl. cbn [w_jfile w_kvj set_jfile fr_sync set_frz]. rewrite JF. exact EX.
+      * intros j' [Hj|[Hj|[Hj|[]]]].
+        -- apply JO; try reflexivity. rewrite <- Hj. unfold slots. simpl. auto.
+        -- cbn [w_jlive set_jfile] in Hj. injection Hj as <-. apply JV; reflexivity.
+        -- apply JO; try reflexivity. rewrite <- Hj. unfold slots. simpl. auto.
+    + apply (pinv_slots (fr_sync w) _ lp PS); try reflexivity.
+      * unfold slot_excl. cbn [w_jfile w_kvj set_jfile fr_sync set_frz]. rewrite JF. exact EX.
+      * intros j' [Hj|[Hj|[Hj|[]]]].
+        -- apply JO; try reflexivity. rewrite <- Hj. unfold slots. simpl. auto.
+        -- cbn [w_jlive set_jfile] in Hj. injection Hj as <-. apply JV; reflexivity.
+        -- cbn [w_jdur set_jfile] in Hj. injection Hj as <-. apply JV; reflexivity.
+  - destruct He as [<-|[<-|[]]]; cbn [snd]; try exact PS.
+    apply (pinv_slots (fr_sync w) _ lp PS); try reflexivity.
+    + unfold slot_excl. cbn [w_jfile w_jlive w_jdur set_kvj fr_sync set_frz]. rewrite JF. exact EX.
+    + intros j' [Hj|[Hj|[Hj|[]]]].
+      * cbn [w_kvj set_kvj] in Hj. injection Hj as <-. apply JV; reflexivity.
+      * apply JO; try reflexivity. rewrite <- Hj. unfold slots. simpl. auto.
+      * apply JO; try reflexivity. rewrite <- Hj. unfold slots. simpl. auto.
+Qed.
+
+(* ---------- the events of diskLayer.commit ------------------------------------------------------ *)
+
+Lemma fok_write st data l0 id v :
+  len l0 < id -> fok st data l0 -> fok st (updN data id v) l0.
+Proof.
+  intros H F. unfold fok in *.
+  destruct v as [h|].
+  - apply (frz_ok_window 0 (mkFrz st id (updN data id (Some h))) l0 st 0); [simpl; lia|].
+    apply (frz_ok_write 0 (mkFrz st 0 data) l0 id h H F).
+  - (* never used with None; keep the lemma total *)
+    revert H F. induction l0 as [|t r IH]; intros H F; simpl in *; auto.
+    destruct F as [F1 F2]. split.
+    + intro Ht. unfold updN. fold (len (t :: r)) in *.
+      destruct (id =? len (t :: r)) eqn:E; [apply N.eqb_eq in E; lia|]. apply F1. exact Ht.
+    + apply IH; auto. rewrite len_cons in H. lia.
+Qed.
+
+(* writeHistory: the append and the optional tail truncation keep PInv *)
+Lemma write_history_pinv w l lp d :
+  LInv w l lp -> d_id d = len l + 1 ->
+  exists evs w1 fl,
+    write_history w d = (evs, Done w1, fl) /\
+    (forall e, In e evs -> PInv (snd e) lp) /\ PInv w1 lp /\
+    kv_core w1 = kv_core w /\ w_dk w1 = w_dk w /\ w_ids w1 = w_ids w /\ w_diffs w1 = w_diffs w /\
+    w_ro w1 = w_ro w /\ w_cfg w1 = w_cfg w /\
+    fr_head (w_fr w1) = d_id d /\ w_stail w <= w_stail w1 /\
+    fr_data (w_fr w1) = updN (fr_data (w_fr w)) (d_id d)
+        (Some (mk_history (disk_root (w_dk w)) (d_root d) (t_changes (d_tr d)))).
+Proof.
+  intros LI Hid. destruct LI as [L1 L2 L3 L4 L5 L6 L7].
+  assert (L6' := L6). destruct L6' as [P1 P2 P3 P4 P5 P6 P7 P8 P9 P10 P11].
+  assert (Hpl : pid (w_dk w) <= len l).
+  { rewrite <- (i_id _ _ _ L1), <- (i_pid _ _ _ L1). lia. }
+  set (h := mk_history (disk_root (w_dk w)) (d_root d) (t_changes (d_tr d))).
+  set (w1 := fr_append w (d_id d) h).
+  assert (PW1 : PInv w1 lp).
+  { apply (pinv_transfer_core w _ lp L6); unfold w1, fr_append; simpl; auto; try lia.
+    - apply fok_write; [lia|exact P5].
+    - intros j Hj E1 E2. simpl in E1, E2.
+      destruct (P11 j Hj E1 E2) as [lj [J1 J2 J3 J4 J5]]. exists lj. constructor; simpl; auto.
+      apply fok_write; [|exact J3].
+      assert (X := L7 j Hj E1 E2). assert (Y := i_id _ _ _ J1). simpl in Y.
+      rewrite (i_id _ _ _ L1) in X. lia. }
+  unfold write_history. fold h.
+  replace (fr_head (w_fr w) + 1 =? d_id d) with true by (symmetry; apply N.eqb_eq; lia).
+  cbn [negb]. fold w1.
+  assert (FR : forall fl, exists evs w1' fl',
+             ([(EV_APPEND, w1)], Done w1, fl) = (evs, Done w1', fl') /\
+             (forall e, In e evs -> PInv (snd e) lp) /\ PInv w1' lp /\
+             kv_core w1' = kv_core w /\ w_dk w1' = w_dk w /\ w_ids w1' = w_ids w /\
+             w_diffs w1' = w_diffs w /\ w_ro w1' = w_ro w /\ w_cfg w1' = w_cfg w /\
+             fr_head (w_fr w1') = d_id d /\ w_stail w <= w_stail w1' /\
+             fr_data (w_fr w1') = updN (fr_data (w_fr w)) (d_id d) (Some h)).
+  { intro fl. exists [(EV_APPEND, w1)], w1, fl. split; [reflexivity|].
+    split; [intros e [<-|[]]; exact PW1|]. split; [exact PW1|].
+    unfold w1, fr_append. simpl. repeat split; lia. }
+  destruct (jc_limit (w_cfg w) =? 0); [apply FR|].
+  destruct (d_id d - fr_tail (w_fr w1) <=? jc_limit (w_cfg w)) eqn:E1; [apply FR|].
+  apply N.leb_gt in E1.
+  destruct (pid (w_dk w1) <? d_id d - jc_limit (w_cfg w) + 1) eqn:E2; [apply FR|].
+  apply N.ltb_ge in E2.
+  assert (T1 : fr_tail (w_fr w1) = fr_tail (w_fr w)) by reflexivity.
+  assert (H1 : fr_head (w_fr w1) = d_id d) by reflexivity.
+  assert (D1 : pid (w_dk w1) = pid (w_dk w)) by reflexivity.
+  set (ntail := d_id d - jc_limit (w_cfg w) + 1 - 1) in *.
+  assert (NT : fr_tail (w_fr w) < ntail /\ ntail <= d_id d /\ ntail <= pid (w_dk w)).
+  { unfold ntail. rewrite T1 in E1. rewrite D1 in E2. lia. }
+  replace ((ntail <? fr_tail (w_fr w1)) || (fr_head (w_fr w1) <? ntail)) with false.
+  2:{ symmetry. apply orb_false_iff. split; apply N.ltb_ge; rewrite ?T1, ?H1; lia. }
+  replace (fr_tail (w_fr w1) =? ntail) with false by (symmetry; apply N.eqb_neq; rewrite T1; lia).
+  set (w2 := fr_trunc_tail w1 ntail).
+  assert (PW2 : PInv w2 lp).
+  { apply (pinv_transfer_core w1 _ lp PW1); unfold w2, fr_trunc_tail; simpl; auto; try lia.
+    - eapply fok_mono; [|apply (p_fr _ _ PW1)]. apply (p_st _ _ PW1).
+    - assert (X := p_sh _ _ PW1). simpl in X. lia.
+    - intros j Hj. apply (jok_transfer w1); simpl; auto; try lia.
+      + apply (p_js _ _ PW1). exact Hj.
+      + apply (p_st _ _ PW1).
+      + apply (p_hd _ _ PW1). }
+  exists [(EV_APPEND, w1); (EV_TRUNC_TAIL, w2)], w2, false. split; [reflexivity|].
+  split; [intros e [<-|[<-|[]]]; [exact PW1|exact PW2]|]. split; [exact PW2|].
+  unfold w2, fr_trunc_tail, w1, fr_append. simpl. repeat split; try lia.
+Qed.
 
 (* REST *)
